@@ -13,6 +13,7 @@ import (
 // well-formed big-endian lexers (constructed by uio.NewBigEndianBuffer).
 type Modes struct {
 	NonNilParams bool
+	ReadOnly     bool // the function must not modify anything that existed at entry, not even its receiver (C20)
 	Safety      bool // panic-freedom obligations
 	Post        bool // ensures of the function's own contract
 	Frame       bool // modifies/frame obligations on every write
@@ -136,7 +137,10 @@ func (eng *Engine) verifyFunction(fn *ssa.Function, modes Modes) (res *FnResult)
 		g.assume(fmt.Sprintf("(and (> (pref %s) 0) (< (pref %s) %s) (>= (poff %s) 0))", n, n, st0.Next, n))
 		top.preEnv[fv] = n
 	}
-	if defaultFrame && fn.Signature.Recv() != nil && len(args) > 0 {
+	if modes.ReadOnly && ct == nil {
+		g.checkFrame = true
+	}
+	if defaultFrame && !modes.ReadOnly && fn.Signature.Recv() != nil && len(args) > 0 {
 		if _, isPtr := fn.Params[0].Type().Underlying().(*types.Pointer); isPtr {
 			r := g.def("modref", "Int", fmt.Sprintf("(pref %s)", args[0]))
 			g.modRefs = []string{r}
@@ -147,6 +151,9 @@ func (eng *Engine) verifyFunction(fn *ssa.Function, modes Modes) (res *FnResult)
 	top.env = map[ssa.Value]string{}
 	for i, p := range fn.Params {
 		top.env[p] = args[i]
+	}
+	for k, x := range top.preEnv {
+		top.env[k] = x
 	}
 	top.entry = st0.clone()
 	if modes.NonNilParams {
